@@ -226,17 +226,21 @@ def _replay_blefrag(ctx, cases):
     from aiohomekit.protocol.tlv import TLV
     from harness.refacc import tlv as RT
 
-    def blob_of(l):
+    def blob_of(l, fill=None):
+        """A pairing reply of exactly l bytes.  fill=None: every byte differs from its neighbours; fill=b: the value is a
+        constant run (zero padding, a repeated character), so that consecutive fragments are byte-identical - the
+        fragments carry no sequence number and identical ones are not retransmissions."""
         if l == 0:
             return b""
         for m in range(max(0, l - 12), l + 1):
-            b = RT.enc([(6, b"\x02"), (3, bytes((i * 7 + 1) % 251 for i in range(m)))]) if m else RT.enc([(6, b"\x02")])
+            body = bytes((i * 7 + 1) % 251 for i in range(m)) if fill is None else bytes([fill]) * m
+            b = RT.enc([(6, b"\x02"), (3, body)]) if m else RT.enc([(6, b"\x02")])
             if len(b) == l:
                 return b
         return None
 
-    async def one(c):
-        blob = blob_of(c["l"])
+    async def one(c, fill=None):
+        blob = blob_of(c["l"], fill)
         if blob is None:
             return None
         writes = []
@@ -281,8 +285,9 @@ def _replay_blefrag(ctx, cases):
 
     loop = asyncio.new_event_loop()
     try:
-        for c in cases:
-            r = loop.run_until_complete(one(c))
+        for ci, c in enumerate(cases):
+          for fill in (None, (0x00, 0x61, 0xFF)[ci % 3]):
+            r = loop.run_until_complete(one(c, fill))
             if r is None:
                 continue
             blob, writes, (kind, got) = r
